@@ -895,6 +895,11 @@ impl Session {
             return Ok(());
         }
 
+        // Serialise with the other writers *before* taking the pending buffer and the packet
+        // index: whoever drains the buffer (Settings, SYN) must also be the next one on the
+        // transport, otherwise a concurrent writer can overtake the frames it is holding.
+        let writer = self.writer.lock().await;
+
         // Flush buffer if any
         {
             let mut buf = self.buffer.lock().await;
@@ -936,11 +941,16 @@ impl Session {
         }
 
         // Write with padding if enabled
-        self.write_with_padding(buffer).await
+        self.write_with_padding(writer, buffer).await
     }
 
-    /// Write buffer to connection with padding applied
-    async fn write_with_padding(&self, mut buffer: BytesMut) -> Result<()> {
+    /// Write buffer to connection with padding applied.
+    /// The caller already holds the writer lock, so packet indices are handed out in wire order.
+    async fn write_with_padding(
+        &self,
+        mut writer: tokio::sync::MutexGuard<'_, Box<dyn AsyncWrite + Send + Unpin>>,
+        mut buffer: BytesMut,
+    ) -> Result<()> {
         use crate::padding::CHECK_MARK;
         use crate::protocol::{Command, HEADER_OVERHEAD_SIZE};
         use bytes::BufMut;
@@ -951,7 +961,6 @@ impl Session {
                 "[Session] write_with_padding: Writing {} bytes without padding",
                 buffer.len()
             );
-            let mut writer = self.writer.lock().await;
             if let Err(e) = writer.write_all(&buffer).await {
                 drop(writer);
                 return Err(self.handle_io_error("write_without_padding", e).await);
@@ -982,7 +991,6 @@ impl Session {
             // Stop padding after stop packets
             // Note: We should probably disable send_padding, but that requires mutable access
             // For now, just write directly
-            let mut writer = self.writer.lock().await;
             if let Err(e) = writer.write_all(&buffer).await {
                 drop(writer);
                 return Err(self.handle_io_error("write_no_padding_stop", e).await);
@@ -999,7 +1007,6 @@ impl Session {
 
         // If no sizes defined, write directly
         if pkt_sizes.is_empty() {
-            let mut writer = self.writer.lock().await;
             if let Err(e) = writer.write_all(&buffer).await {
                 drop(writer);
                 return Err(self.handle_io_error("write_no_padding_sizes", e).await);
@@ -1012,8 +1019,6 @@ impl Session {
         }
 
         vp!("write_with_padding.before_lock");
-        let mut writer = self.writer.lock().await;
-
         for size in pkt_sizes {
             let remain_payload_len = buffer.len();
             vp!("write_with_padding.between_pieces");
